@@ -437,7 +437,7 @@ def link_case(draw, archs=("arm", "x86_64", "riscv", "xtensa", "microblaze", "ex
 
 
 @st.composite
-def simple_layout(draw, secnames, entry_candidates=(), min_size=0x4000, far=False, gaps=None):
+def simple_layout(draw, secnames, entry_candidates=(), min_size=0x4000, far=False, gaps=None, size_hint=None):
     """A layout that places every given section, with generous memories (for
     objects whose section sizes are not known when the case is drawn)."""
     secnames = list(draw(st.permutations(list(secnames))))
@@ -458,6 +458,10 @@ def simple_layout(draw, secnames, entry_candidates=(), min_size=0x4000, far=Fals
     for m in mems:
         m["location"] = base
         m["size"] = draw(st.sampled_from([min_size, 4 * min_size, 0x800000 if far else 2 * min_size]))
+        if size_hint is not None:
+            # upper bounds of the section sizes are known: make the memory large enough
+            need = sum(size_hint.get(a, 0) + 0x120 for k, a in m["inputs"] if k == "section")
+            m["size"] = max(m["size"], align_up(need, 0x100))
         gap = draw(st.sampled_from(list(gaps) if gaps is not None else [0, 0x10, 0x1000, 0x1234, 0x100000, 0x7F0000] + ([0x8000000] if far else [])))
         gap = gap // 4 * 4 if draw(st.integers(0, 3)) else gap + draw(st.sampled_from([1, 2, 3]))
         base = base + m["size"] + gap
